@@ -147,6 +147,10 @@ class Engine:
         self.queries += 1
         if dt > 1.0 and os.environ.get('PYVC_TRACE'):
             print(f'[slow query {dt:.1f}s {r} finite={self.ctx.finite} trial={self.trial}] goal={str(goal)[:300]}', file=sys.stderr)
+        if r != z3.unsat and os.environ.get('PYVC_DUMP') and not self.trial:
+            self._dumpn = getattr(self, '_dumpn', 0) + 1
+            with open(os.path.join(os.environ['PYVC_DUMP'], f'q{self._dumpn}_{"fin" if self.ctx.finite else "unb"}.smt2'), 'w') as fh:
+                fh.write('(set-logic ALL)\n' + s.to_smt2())
         if r == z3.unsat:
             return 'discharged', ''
         if r == z3.sat:
@@ -279,6 +283,11 @@ class Engine:
         """Bring two values to a common type (for ==, if-expressions, set ops)."""
         if a.t == b.t:
             return a, b
+        # value-level comparison: an instance compared with a task value is compared by its value
+        if a.t == U('Inst') and b.t == U('Task'):
+            return self.coerce(a, b.t), b
+        if b.t == U('Inst') and a.t == U('Task'):
+            return a, self.coerce(b, a.t)
         for x, y in ((a, b), (b, a)):
             try:
                 xc = self.coerce(x, y.t)
@@ -737,6 +746,9 @@ class Evaluator:
         if on in ('Eq', 'NotEq', 'Is', 'IsNot'):
             if a.t.k in ('enumcls', 'exccls') or b.t.k in ('enumcls', 'exccls'):
                 raise Unsupported('class comparison')
+            if (not self.spec) and on in ('Eq', 'NotEq') and a.t == U('Inst') and b.t == U('Inst'):
+                # code `==` on task objects is dataclass value equality; identity is `is` (specs use == for identity)
+                a, b = self.eng.coerce(a, U('Task')), self.eng.coerce(b, U('Task'))
             a, b = self.eng.unify(a, b)
             r = self.ctx.eq(a.t, a.z, b.z)
             return r if on in ('Eq', 'Is') else z3.Not(r)
@@ -759,6 +771,8 @@ class Evaluator:
             # `task in tasks` compares with ==, i.e. by value
             f = self.ctx.func('Inst_to_Task', [U('Inst')], U('Task'))
             return self.ctx.exists([U('Inst')], lambda i: z3.And(z3.Select(coll.z, i), f(i) == x.z))
+        if t.k in ('set', 'list') and getattr(coll, 'pred', None) is not None:
+            return coll.pred(self.eng.coerce(x, t.args[0]).z)
         if t.k in ('set', 'list'):
             return z3.Select(coll.z, self.eng.coerce(x, t.args[0]).z)
         if t.k == 'map':
@@ -806,8 +820,10 @@ class Evaluator:
         et = elt_probe.t
         if et.k not in ('u', 'int', 'bool'):
             raise Unsupported(f'comprehension element type {et}')
+        pred = None
         if et == dom_t and z3.eq(elt_probe.z, probe_k):
             r = self.ctx.set_comp(dom_t, lambda k: body(k)[1])
+            pred = lambda y: body(y)[1]
         else:
             # image: {y : exists k. member(k) and conds(k) and y == elt(k)}
             def inimg(y):
@@ -817,8 +833,11 @@ class Evaluator:
                     return z3.And(c, sv.z == y)
                 return self.ctx.exists([dom_t], ex)
             r = self.ctx.set_comp(et, inimg)
+            pred = inimg
         self.comp_safety(dom_t, body, [n.elt])
-        return SV(T(kind, (et,)), r)
+        out = SV(T(kind, (et,)), r)
+        out.pred = pred          # membership tests use the defining formula directly instead of selecting from a lambda term
+        return out
 
     def comp_safety(self, dom_t, body, exprs):
         """Implicit-raise conditions inside a comprehension, quantified over its domain."""
